@@ -989,7 +989,10 @@ func vfRoutes(x []byte, limit uint32, want *MIME) error {
 		kind     string
 		consumed func() int
 	)
-	switch (h >> 16) % 8 {
+	switch (h >> 16) % 9 {
+	case 8:
+		d := &vfDecoyReader{data: x, head: len(x) / 3}
+		sr, kind, consumed = d, "reader that also has Len/Size/Buffered methods describing only its buffered head", func() int { return d.off }
 	case 0:
 		br := bytes.NewReader(x)
 		sr, kind, consumed = bufio.NewReaderSize(br, 16), "*bufio.Reader (16-byte buffer)", nil
@@ -1033,6 +1036,26 @@ func vfRoutes(x []byte, limit uint32, want *MIME) error {
 	}
 	return nil
 }
+
+// vfDecoyReader delivers data through Read; its other methods (as on a buffered or replaying
+// stream) describe only the part it holds in memory, not the stream.
+type vfDecoyReader struct {
+	data []byte
+	off  int
+	head int
+}
+
+func (r *vfDecoyReader) Read(p []byte) (int, error) {
+	if r.off >= len(r.data) {
+		return 0, io.EOF
+	}
+	n := copy(p, r.data[r.off:min(len(r.data), r.off+max(1, r.head))])
+	r.off += n
+	return n, nil
+}
+func (r *vfDecoyReader) Len() int      { return max(0, r.head-r.off) }
+func (r *vfDecoyReader) Size() int64   { return int64(r.head) }
+func (r *vfDecoyReader) Buffered() int { return max(0, r.head-r.off) }
 
 // vfRouteCut lets a check name the segment boundary for route (d) (e.g. the end of a complete value).
 var vfRouteCut int
@@ -1243,6 +1266,40 @@ func vfDictTok(t *rapid.T) string {
 		return "x"
 	}
 	return vfDictLits[rapid.IntRange(0, len(vfDictLits)-1).Draw(t, "dict")]
+}
+
+// vfDictSweep runs `check` on every case `build` derives from every dictionary literal (the
+// shards split the literals). A failure is written as a replay file of sub-check failSub.
+func vfDictSweep[C any](t *testing.T, prop, failSub string, toks []string, build func(tok string) []C, check func(C) vfResult, desc string) bool {
+	if !vfOnlySub("dict") || vfReplayMode() {
+		return true
+	}
+	sh, nsh := vfShard(), vfNShards()
+	n := 0
+	for i, tok := range toks {
+		if i%nsh != sh {
+			continue
+		}
+		for _, c := range build(tok) {
+			r := func() (r vfResult) {
+				defer func() {
+					if p := recover(); p != nil {
+						r = vfResult{Err: fmt.Errorf("panic: %v", p)}
+					}
+				}()
+				return check(c)
+			}()
+			n++
+			r.Labels = append(r.Labels, "dict")
+			vfStats.record(r, func() any { return map[string]any{"sub": "dict", "literal": vfQ([]byte(tok))} })
+			if r.Err != nil {
+				vfEnumFail(t, prop, failSub, c, r.Err)
+				return false
+			}
+		}
+	}
+	vfStats.Subchecks["dict"] = fmt.Sprintf("%s; %d literals of the tree under test, this shard ran %d cases", desc, len(toks), n)
+	return true
 }
 
 // vfDictText are the dictionary entries that are plain printable ASCII without quotes,
